@@ -649,7 +649,7 @@ func (g *gen) genBlock(bi int) {
 			blk.Faults = append(blk.Faults, Fault{Replica: ri, Kind: "restart"})
 		}
 		if r.Chance(g.cfg.crashRate) {
-			blk.Faults = append(blk.Faults, Fault{Replica: ri, Kind: "crash_commit", K: r.Intn(64)})
+			blk.Faults = append(blk.Faults, Fault{Replica: ri, Kind: "crash_commit", K: r.Intn(64), IOErr: r.Chance(0.35)})
 		}
 		if r.Chance(g.cfg.powerLossRate) {
 			blk.Faults = append(blk.Faults, Fault{Replica: ri, Kind: "power_loss", K: r.Range(1, 6)})
